@@ -404,6 +404,8 @@ def desugar_comprehensions(fn):
     def conv(s):
         if isinstance(s, ast.Assign) and len(s.targets) == 1 and isinstance(s.targets[0], ast.Name):
             name, v = s.targets[0].id, s.value
+            if any(isinstance(x, ast.Name) and x.id == name for x in ast.walk(v)):
+                return None        # `x = [e for e in x if …]` reads the old x: not expressible as init + loop on x
             if isinstance(v, ast.ListComp):
                 return [ast.Assign(targets=[ast.Name(id=name, ctx=ast.Store())], value=ast.List(elts=[], ctx=ast.Load()))] \
                     + _comp_to_loops(v, app(name, v.elt, s))
@@ -529,3 +531,77 @@ def inline_private_exprs(tree, find_method_of, rounds=2, eligible=None):
                 if isinstance(f, ast.FunctionDef):
                     cls.body[i] = T(f.name).visit(f)
     return set_parents(tree), used
+
+
+def returned_expr(ret, fn=None):
+    """the expression a `return` hands back, looking through `tmp = <expr>; return tmp` (the assignment just before
+    it in the same block) and, failing that, through a single-assignment local"""
+    v = ret.value
+    if not isinstance(v, ast.Name):
+        return v
+    par = getattr(ret, "_parent", None)
+    for field in ("body", "orelse", "finalbody"):
+        block = getattr(par, field, None)
+        if isinstance(block, list) and any(s is ret for s in block):
+            i = next(k for k, s in enumerate(block) if s is ret)
+            if i > 0 and isinstance(block[i - 1], ast.Assign) and len(block[i - 1].targets) == 1 \
+                    and isinstance(block[i - 1].targets[0], ast.Name) and block[i - 1].targets[0].id == v.id:
+                return block[i - 1].value
+    if fn is not None:
+        m = single_assignments(fn)
+        if v.id in m:
+            return m[v.id]
+    return v
+
+
+def reaching_value(stmt, name):
+    """value of the last `name = <expr>` among the statements that precede `stmt` in its own block (None if there is
+    none there): enough to look through `tmp = <expr>; self.a = tmp`"""
+    par = getattr(stmt, "_parent", None)
+    for field in ("body", "orelse", "finalbody"):
+        block = getattr(par, field, None)
+        if isinstance(block, list) and any(s is stmt for s in block):
+            i = next(k for k, s in enumerate(block) if s is stmt)
+            for s in reversed(block[:i]):
+                if isinstance(s, ast.Assign) and len(s.targets) == 1 and isinstance(s.targets[0], ast.Name) \
+                        and s.targets[0].id == name:
+                    return s.value
+                if any(isinstance(x, ast.Name) and x.id == name and isinstance(x.ctx, ast.Store) for x in ast.walk(s)):
+                    return None
+    return None
+
+
+def list_builder(fn, name):
+    """If the local `name` is built as `name = []` followed by one loop nest whose only effect on it is a single
+    `name.append(<elt>)`, return the equivalent ast.ListComp (generators = the enclosing for / if nest); else None.
+    The inverse of desugar_comprehensions, for rules written against the comprehension form."""
+    inits = [n for n in ast.walk(fn) if isinstance(n, ast.Assign) and len(n.targets) == 1
+             and isinstance(n.targets[0], ast.Name) and n.targets[0].id == name]
+    if len(inits) != 1 or not (isinstance(inits[0].value, ast.List) and not inits[0].value.elts):
+        return None
+    apps = [c for c in ast.walk(fn) if isinstance(c, ast.Call) and isinstance(c.func, ast.Attribute)
+            and c.func.attr == "append" and isinstance(c.func.value, ast.Name) and c.func.value.id == name]
+    others = [x for x in ast.walk(fn) if isinstance(x, ast.Name) and x.id == name and isinstance(x.ctx, ast.Store)]
+    if len(apps) != 1 or len(others) != 1 or len(apps[0].args) != 1:
+        return None
+    gens, x = [], getattr(apps[0], "_parent", None)       # Expr statement
+    ifs = []
+    x = getattr(x, "_parent", None)
+    stop = getattr(inits[0], "_parent", None)              # the nest lives in the block that holds the initialisation
+    while x is not None and x is not fn and x is not stop:
+        if isinstance(x, ast.If):
+            # only the positive arm of a plain `if` (no else) is a comprehension filter
+            if x.orelse:
+                return None
+            ifs.insert(0, x.test)
+        elif isinstance(x, ast.For):
+            gens.insert(0, ast.comprehension(target=x.target, iter=x.iter, ifs=ifs, is_async=0))
+            ifs = []
+        elif not isinstance(x, ast.FunctionDef):
+            return None
+        x = getattr(x, "_parent", None)
+    if ifs or not gens:
+        return None
+    comp = ast.ListComp(elt=apps[0].args[0], generators=gens)
+    ast.copy_location(comp, inits[0])
+    return comp
